@@ -50,11 +50,13 @@ async def is_valid_expression(
             # The tree comes straight from the ahb expression parser: its condition expressions are still plain text,
             # so there are no keys to extract yet. Resolve them first (just like for a str).
             try:
-                tree = expand_time_conditions(AhbExpressionResolverTransformer().transform(tree))
+                tree = AhbExpressionResolverTransformer().transform(tree)
             except VisitError as visit_err:
                 if isinstance(visit_err.orig_exc, SyntaxError):
                     return False, str(visit_err.orig_exc)
                 raise visit_err.orig_exc
+        # time conditions that have not been replaced yet are replaced now (just like for a str)
+        tree = expand_time_conditions(tree)
     else:
         raise ValueError(f"{expression_or_tree} is neither a string nor a Tree")
     categorized_key_extract = extract_categorized_keys_from_tree(tree, sanitize=True)
